@@ -151,6 +151,16 @@ package parse
 //@        valid(v) && kind(vtype(v)) == Ptr && !visnil(v) && elem(vtype(v)) != nil && kind(elem(vtype(v))) == kind(t)
 //@   ensures C16_slice_results_have_the_requested_type: err == nil && kind(t) == Slice ==> valid(v) && vtype(v) == t
 //@   ensures err != nil ==> !valid(v)
+//@   at call reflect.ValueOf(&str):
+//@     assert C15_a_string_parses_to_exactly_itself: str == old(str)
+//@   at call parseNumber(:
+//@     assert C15_the_number_parser_gets_the_whole_text: str == old(str)
+//@   at call strconv.ParseBool(:
+//@     assert C15_the_bool_parser_gets_the_whole_text: str == old(str)
+//@   at call StringSlice(:
+//@     assert C15_the_slice_splitter_gets_the_whole_text: str == old(str)
+//@   at call Map(:
+//@     assert C15_the_map_splitter_gets_the_whole_text: str == old(str)
 
 // the callback parse.Map hands to splitMap: free variables keyType, m, valType (captured by reference)
 //@ macro capType(p Ref) RType = cell(p, "RType")
